@@ -198,6 +198,33 @@ theorem quat_alg_is_zero_translated_exact (p : ℤ) (x : Elem) (hx : x.denom ≠
     QuaternionAlgebra.re_zero, QuaternionAlgebra.imI_zero, QuaternionAlgebra.imJ_zero, QuaternionAlgebra.imK_zero,
     div_eq_zero_iff, Int.cast_eq_zero, and_assoc, hd', or_false]
 
+/-- the translated C text of `quat_alg_normalize` (content, gcd with the denominator, five truncated divisions, and the sign
+    branch `if (0 < ibz_cmp(&zero, &x->denom))` as an if-then-else) = the model; it keeps the value in `H p` and makes the
+    denominator positive -/
+theorem quat_alg_normalize_translated_exact (p : ℤ) (x : Elem) (hx : x.denom ≠ 0) :
+    let r := QuatAlgText.ofTup (SqiGen.QuatAlg.quat_alg_normalize x.denom x.coord.x0 x.coord.x1 x.coord.x2 x.coord.x3)
+    r = algNormalize x ∧ val p r = val p x ∧ 0 < r.denom := by
+  intro r
+  have h : r = algNormalize x := by simp only [r, QuatAlgText.normalize_gen, QuatAlgText.ofTup_tup]
+  rw [h]; exact ⟨rfl, algNormalize_val p x hx⟩
+
+example : SqiGen.QuatAlg.quat_alg_normalize (-6) 4 (-2) 0 8 = (3, -2, 1, 0, -4) := by decide
+
+/-- the translated C text of `from_1ijk_to_O0basis` (doubling of the j,k coordinates, the two differences, and the
+    `if (!ibz_is_one(&el->denom))` block of truncated divisions as an if-then-else; debug-only asserts dropped) = the model,
+    and for an element of O₀ it returns the coordinate vector in the basis of O₀ -/
+theorem o0basis_translated_exact (el : Elem)
+    (h0 : el.denom ∣ el.coord.x0 - el.coord.x3) (h1 : el.denom ∣ el.coord.x1 - el.coord.x2)
+    (h2 : el.denom ∣ el.coord.x2 + el.coord.x2) (h3 : el.denom ∣ el.coord.x3 + el.coord.x3) :
+    let v := QuatAlgText.ofVtup
+      (SqiGen.QuatAlg.from_1ijk_to_O0basis el.denom el.coord.x0 el.coord.x1 el.coord.x2 el.coord.x3)
+    v = from1ijkToO0 el ∧ CoordsOf O0lat el v := by
+  intro v
+  have h : v = from1ijkToO0 el := by simp only [v, QuatAlgText.o0basis_gen, QuatAlgText.ofVtup_vtup]
+  rw [h]; exact ⟨rfl, from1ijkToO0_spec el h0 h1 h2 h3⟩
+
+example : SqiGen.QuatAlg.from_1ijk_to_O0basis 2 5 3 1 1 = (2, 1, 1, 1) := by decide
+
 example : SqiGen.QuatAlg.quat_alg_sub 2 1 2 3 4 3 5 6 7 8 = (6, -7, -6, -5, -4) := by decide
 
 /-- tie T: the entry scan of `ibz_mat_4x4_gcd` as translated from the current C text is the model's content of ALL 16
